@@ -51,7 +51,7 @@ ASSUMPTIONS = [
     "canonical form skips only the declared metadata of vlib.canon.SKIP",
     "Project.run_optimization is dead code (optim_ins.make no longer exists) and is out of scope",
 ]
-BUDGET = {"quick": 400, "thorough": 3200}  # thorough = 8x quick: a depth that was run to completion, quiet, at seed 1 (deterministic given the seed)
+BUDGET = {"quick": 400, "thorough": 1600}  # thorough = 4x quick: a depth that was run to completion, quiet, at seed 1 (deterministic given the seed)
 TIME_CAP = {"quick": 65, "thorough": 1500}
 TOL = 1e-9
 INF = math.inf
